@@ -214,7 +214,7 @@ def run_scenarios(pid, scenarios, seed, gh_exe, extra_builds=()):
                            "note": "the specification (which transcribes the code) violates the property; "
                                    "the counterexample history is in the log"}, f, indent=1)
             violations.append({"replay": path, "what": "TLC: %s in %s" % (tl["violation"], scn.name)})
-        elif not tl["ok"]:
+        elif not tl["ok"] and "crash" not in mc:      # (TLC is killed when the harness dies)
             raise vf.Infra("TLC did not finish on %s: %s (log %s)" % (scn.name, tl["error"], mc["tlc_log"]))
         if scn.walk:
             w = mc.get("walk")
